@@ -134,6 +134,26 @@ def scenarios(rng, quick):
         skip = rng.choice([[], [], [6, 7], [rng.randrange(1, 8)], sorted(rng.sample(range(1, 8), 2))])
         args = ["%04d-%02d-%02d" % (y, m, d), incs, fmtd(l)] + sum((["-s", WDN[w]] for w in skip), [])
         sc.append(dict(kind="mon", args=args, first=[y, m, d], inc=[im, idd], last=l, skip=skip, cfl=False, wd0=5, dec="date"))
+    # compound increments (days or weeks together with months or years, written in either order): where the day of the month stays within
+    # 1..28 on the whole run, "k increments" means the same under every reading (k times the month part and k times the day part)
+    for i in range(n // 4 + 30):
+        neg = rng.random() < 0.35
+        idd = rng.choice([1, 2, 3, 7])
+        im = rng.choice([1, 1, 2, 3, 12, 13])
+        d = rng.randrange(1, 9) if not neg else rng.randrange(21, 29)
+        room = (28 - d) // idd if not neg else (d - 1) // idd
+        steps = rng.randrange(0, min(9, room) + 1)
+        y, m = rng.randrange(1700, 3900), rng.randrange(1, 13)
+        sg = -1 if neg else 1
+        t = y * 12 + m - 1 + sg * im * steps
+        ly, lm = t // 12, t % 12 + 1
+        if not (1602 <= ly <= 4090):
+            continue
+        l = ldn(ly, lm, d + sg * idd * steps) + sg * rng.choice([0, 0, 1, 2])
+        dtxt = "%dw" % (idd // 7) if idd == 7 else "%dd" % idd
+        mtxt = "%dmo" % im if im % 12 or rng.random() < 0.5 else "%dy" % (im // 12)
+        incs = ("-" if neg else "") + (dtxt + mtxt if rng.random() < 0.6 else mtxt + dtxt)
+        sc.append(dict(kind="mon", args=["%04d-%02d-%02d" % (y, m, d), incs, fmtd(l)], first=[y, m, d], inc=[sg * im, sg * idd], last=l, skip=[], cfl=False, wd0=5, dec="date"))
     # the same with date-time bounds: the time of day rides along unchanged, LAST is compared as a date-time -- the model is given
     # the day on which the run must end (LAST's day, or the day before/after when FIRST's time of day lies beyond LAST's)
     for i in range(n // 3 + 40):
